@@ -4,6 +4,7 @@ package main
 
 import (
 	"bytes"
+	"context"
 	"fmt"
 	"os"
 	"strings"
@@ -11,6 +12,8 @@ import (
 	"github.com/tink-crypto/tink-go/v2/internal/verifharness/hlib"
 	"github.com/tink-crypto/tink-go/v2/internal/verifharness/kslib"
 	"github.com/tink-crypto/tink-go/v2/keyset"
+	"github.com/tink-crypto/tink-go/v2/tink"
+	"google.golang.org/protobuf/encoding/protojson"
 	"google.golang.org/protobuf/proto"
 
 	tinkpb "github.com/tink-crypto/tink-go/v2/proto/tink_go_proto"
@@ -192,9 +195,17 @@ func (w *world) check(g *gen) result {
 			var eerr error
 			where := "keyset.ReadWithAssociatedData(MemReaderWriter)"
 			if p := hlib.Recover(func() {
-				if w.rng.Bool() {
+				switch w.rng.Intn(4) {
+				case 0:
 					eh, eerr = keyset.ReadWithAssociatedData(&keyset.MemReaderWriter{EncryptedKeyset: enc}, w.master, ad)
-				} else {
+				case 2:
+					where = "keyset.ReadWithAssociatedData(JSONReader)"
+					ej, _ := protojson.Marshal(enc)
+					eh, eerr = keyset.ReadWithAssociatedData(keyset.NewJSONReader(bytes.NewReader(ej)), w.master, ad)
+				case 1:
+					where = "keyset.ReadWithContext(MemReaderWriter)"
+					eh, eerr = keyset.ReadWithContext(context.Background(), &keyset.MemReaderWriter{EncryptedKeyset: enc}, ctxAEAD{w.master}, ad)
+				default:
 					where = "keyset.ReadWithAssociatedData(BinaryReader)"
 					eb, _ := proto.Marshal(enc)
 					eh, eerr = keyset.ReadWithAssociatedData(keyset.NewBinaryReader(bytes.NewReader(eb)), w.master, ad)
@@ -231,6 +242,16 @@ func (w *world) check(g *gen) result {
 	}
 	res.usable = w.use(h, g, 0)
 	return res
+}
+
+// ctxAEAD turns an AEAD into a tink.AEADWithContext.
+type ctxAEAD struct{ a tink.AEAD }
+
+func (c ctxAEAD) EncryptWithContext(_ context.Context, pt, ad []byte) ([]byte, error) {
+	return c.a.Encrypt(pt, ad)
+}
+func (c ctxAEAD) DecryptWithContext(_ context.Context, ct, ad []byte) ([]byte, error) {
+	return c.a.Decrypt(ct, ad)
 }
 
 // goSideNil: inputs the line protocol cannot express.
